@@ -56,8 +56,22 @@ type execCtx struct {
 	cur string // current case header
 }
 
+// outBytes: an implementation that has gone wrong can produce observations of many megabytes (a value that grows with
+// every call); the trace stays bounded: such an observation is replaced by its size, which no model answer equals.
+var outBytes, tooLarge int
+
 func (x *execCtx) out(op, obs string) {
+	if len(obs) > 256<<10 {
+		obs = fmt.Sprintf("toolarge:len=%d", len(obs))
+		tooLarge++
+	}
+	outBytes += len(op) + len(obs) + 5
 	fmt.Fprintf(x.w, "%s => %s\n", op, obs)
+	if tooLarge >= 20 || outBytes > 512<<20 {
+		// enough evidence; what follows would only be slower and larger
+		x.w.Flush()
+		os.Exit(0)
+	}
 }
 
 func main() {
